@@ -20,7 +20,36 @@ fn run_plan(plan: &Plan, keep_events: bool) -> RunReport {
     }
 }
 
+thread_local! {
+    /// no candidate may cost more per key expansion than this (hash units of gen::tree_cost)
+    static COST_LIMIT: Cell<u64> = Cell::new(u64::MAX);
+}
+
+/// Cost of the most expensive key of a plan: its top tree (key generation builds only that one), or all of its
+/// trees when the plan contains an operation that expands the whole key.  Dropping the cheap top level of a key
+/// whose lower levels are tall (heights up to 25 occur below the top in the keygen profile) would otherwise
+/// produce a candidate whose single execution takes hours — the time budget is only looked at between candidates.
+fn plan_cost(plan: &Plan) -> u64 {
+    let expands = plan.ops.iter().any(|op| matches!(op, Op::Sign { .. } | Op::Lifetime { .. } | Op::Load { .. } | Op::Recheck { .. } | Op::Handover { .. } | Op::ForeignKey { .. } | Op::HsKeygen { .. }));
+    plan.keys
+        .iter()
+        .map(|k| {
+            if k.params.is_empty() {
+                0
+            } else if expands {
+                k.params.iter().map(|&(w, h)| crate::gen::tree_cost(k.hash, w, h.min(40))).fold(0u64, |a, b| a.saturating_add(b))
+            } else {
+                crate::gen::tree_cost(k.hash, k.params[0].0, k.params[0].1.min(40))
+            }
+        })
+        .max()
+        .unwrap_or(0)
+}
+
 fn fails(plan: &Plan, property: &str, key: &str) -> bool {
+    if plan_cost(plan) > COST_LIMIT.with(|c| c.get()) {
+        return false;
+    }
     run_plan(plan, false).violations.iter().any(|v| v.property == property && v.key == key)
 }
 
@@ -34,6 +63,7 @@ pub fn minimise_in_children(plan: &Plan, property: &str, key: &str, budget_s: u6
 
 pub fn minimise(plan: &Plan, property: &str, key: &str, budget_s: u64) -> Plan {
     let deadline = Instant::now() + Duration::from_secs(budget_s);
+    COST_LIMIT.with(|c| c.set(plan_cost(plan).max(20_000_000)));
     let mut best = plan.clone();
     if !fails(&best, property, key) {
         return best;
